@@ -357,7 +357,10 @@ class StreamGen:
         for X in m[5]:      # negative
             fam += [T.svar(X), T.neg(T.svar(X)), T.imp(T.svar(X), T.sym(0)), T.app(T.neg(T.svar(X)), T.sym(0))]
         for x in m[6]:      # application context
-            fam += [T.evar(x), T.app(T.evar(x), T.sym(0)), T.app(T.evar(x), T.evar(x)), T.imp(T.evar(x), T.BOT), T.app(T.sym(0), T.app(T.evar(x), T.sym(1)))]
+            fam += [T.evar(x), T.app(T.evar(x), T.sym(0)), T.app(T.evar(x), T.evar(x)), T.imp(T.evar(x), T.BOT), T.app(T.sym(0), T.app(T.evar(x), T.sym(1))),
+                    # the hole on both sides of an application, once in context position and once not
+                    T.app(T.evar(x), T.imp(T.evar(x), T.BOT)), T.app(T.imp(T.evar(x), T.BOT), T.evar(x)), T.app(T.app(T.evar(x), T.sym(0)), T.ex((x + 1) % 250, T.evar(x))),
+                    T.app(T.ex(x, T.evar(x)), T.evar(x)), T.app(T.mv(5, holes=(x,)), T.evar(x)), T.app(T.mv(5, holes=(x,)), T.sym(0)), T.app(T.mv(5), T.evar(x))]
         p = rng.choice(fam)
         if not T.wf_deep(p):
             return
